@@ -923,3 +923,43 @@ def commands_inside_a_group(tier, seed):
 def _replay_group(f):
     inner = f['input']['commands'][1]
     return _run(_group_case(inner, dict(GROUP_INNER)[inner])) is None
+
+
+# ---------------------------------------------------------------------------------------------------------------------
+# `sync` commands are acknowledged once their routes are on the wire: the acknowledgement hangs on an event the send step
+# of the peer loop sets.  Whatever the command changed for that peer -- nothing at all included -- the event is set after a
+# bounded number of turns (a command never answered also blocks every command behind it)
+def sync_case(what):
+    from . import c11, c17
+
+    inp = {'sync_command': what}
+    w = c17.World(dict(routes={'A': 10}, hold=180))
+    key = list(w.peers())[0]
+    s = c11.Sess(w, key)
+    if not s.settle():
+        raise RuntimeError('harness: the session never settles')
+    rib = s.peer.neighbor.rib.outgoing
+    event = rib.register_flush_callback()  # what register_flush_callbacks() of the API handlers does per connected peer
+    if what == 'a new route':
+        c11.apply(rib, ('ann', 1, 10))
+    elif what == 'a route the peer already has':
+        c11.apply(rib, ('ann', 0, 10))
+    elif what == 'the withdraw of a route the peer does not have':
+        c11.apply(rib, ('wd', 2, None))
+    for _ in range(6):
+        s.step(25)
+    if not event.is_set():
+        return {'what': f'a sync command ({what}) is never acknowledged: the flush event is not set after 6 turns of the send loop', 'input': inp}
+    return None
+
+
+@bounded('C14', 'sync-acknowledgement')
+def sync_acknowledgement(tier, seed):
+    cases = ['a new route', 'a route the peer already has', 'the withdraw of a route the peer does not have', 'nothing']
+    fails = [f for f in (sync_case(c) for c in cases) if f]
+    return {'evaluations': len(cases), 'distinct_nontrivial': len(cases), 'exhaustive': True, 'bound': 'the flush event a sync command waits for, registered on the Adj-RIB-Out of an established peer (real send statements of Peer._main), for a command which queues a new route, a duplicate, a withdraw of nothing, or nothing: set within 6 turns', 'rule': 'one case = what the command changed', 'samples': [{'sync_command': 'a route the peer already has'}], 'failures': fails}
+
+
+@replayer('C14', 'sync-acknowledgement')
+def _replay_sync(f):
+    return sync_case(f['input']['sync_command']) is None
